@@ -130,6 +130,9 @@ def finish(pid, src, meta, keep):
         mp = os.path.join(dst, "meta.json")
         if os.path.exists(mp):
             old = json.load(open(mp))
+        for k in ("change", "breaks_property", "needs_to_manifest"):
+            if k in old and k not in meta:
+                meta[k] = old[k]
         # keep earlier check results of other tiers
         if old.get("checks"):
             for k, v in old["checks"].items():
